@@ -416,6 +416,25 @@ def r_squash(ctx):
                 ctx.check(marker, 'R01.7', '%s/%s-withdraws-exactness' % (tag, kind), b, b.loc(bb),
                           'every path that squashes a layer (%s) records the inexactness (lel := Some(..) / is_exact := false)' % kind,
                           'a layer can be %s without the diagram withdrawing its exactness claim' % ('truncated' if kind == 'restrict' else 'merged'))
+        # C13: the squash is not only guarded, it is mandatory: the only exemptions are len <= w and (relaxed) fewer than two layers
+        for (kind, calls, variant) in (('restrict', rs, 'Restricted'), ('relax', rx, 'Relaxed')):
+            arm = [(tb, 0) for bbk in b.live_blocks() if b.term(bbk)['k'] == 'switch' for (tb, lab) in b.succ(bbk)
+                   if (lambda lit: lit and lit[0] == 'in' and comp_type(lit[1]) and lit[2] == frozenset([variant]))(M.edge_literal(b, bbk, lab))]
+            def exempt(atoms, lit, kind=kind):
+                for a in atoms:
+                    if M.cmp_matches(a, lambda t: M.is_call(t, 'len') and M.is_param(t[2][0], index=2), is_w, '<='):
+                        return True
+                    if kind == 'relax':
+                        if M.cmp_matches(a, lambda t: M.is_call(t, 'len') and self_field(t[2][0], 'layers'), lambda t: M.is_const(t, 2), '<'):
+                            return True
+                        if M.cmp_matches(a, lambda t: M.is_call(t, 'len') and self_field(t[2][0], 'layers'), lambda t: M.is_const(t, 1), '<='):
+                            return True
+                return False
+            cut = _cut_edges(b, exempt)
+            r = b.reach(arm, cut_edges=cut, avoid=[b.term_point(bb) for (bb, t) in calls])
+            ctx.check(bool(arm) and not any(p in r for p in ret_points(b)), 'R13.b', '%s/%s-is-mandatory' % (tag, kind), b, b.loc(calls[0][0]),
+                      'in a %s compilation a layer escapes the squash only when len <= max_width%s' % (variant, ' or fewer than two layers exist' if kind == 'relax' else ''),
+                      'in a %s compilation a layer with len > max_width can be left unsquashed for a reason other than %s: layers wider than max_width are expanded' % (variant, '"fewer than two layers exist"' if kind == 'relax' else 'none'))
         # relaxed squash keeps the first layer below the root intact (E15)
         (bb, t) = rx[0]
         def accl(atoms, lit):
@@ -945,8 +964,9 @@ def r_filters(ctx):
             if good:
                 r1 = c.reach([(0, 0)], avoid=[pt for (pt, d, v) in tw])
                 good = not any(p in r1 for p in falses)
-            ctx.check(good, 'R09.5', tag + '/theta-write/dominance threshold', c, c.loc(*tw[0][0]) if tw else c.loc(bb), 'a dominated node receives theta := the checker\'s threshold',
-                      'a dominated node does not receive theta := threshold returned by the checker')
+            for rid in ('R09.5', 'R10.6'):
+                ctx.check(good, rid, tag + '/theta-write/dominance threshold', c, c.loc(*tw[0][0]) if tw else c.loc(bb), 'a dominated node receives theta := the checker\'s threshold (otherwise it is taken for a dangling exact node and gets theta = MAX)',
+                          'a dominated node does not receive theta := threshold returned by the checker')
 
 
 # ------------------------------------------------------------------------------------------------
